@@ -166,6 +166,16 @@ def injections(ctx):
                 f2 = dict(files)
                 f2[u] = f2[u].replace("pragma circom 2.0.0;", "pragma circom %s;" % ver, 1)
                 add("%s-pragma-%s-%s" % (btag, ver, u), f2, argv, "bad-pragma")
+        # 3b. NOT failures (third pass, for the correspondence of Model.FrontStages.check_compiler_version only): the boundary
+        # versions the check accepts (the project must stay clean) and a file without pragma (a warning, no error)
+        for ver in ("2.1.4", "2.1.0", "2.0.9"):
+            f2 = dict(files)
+            f2[user[0]] = f2[user[0]].replace("pragma circom 2.0.0;", "pragma circom %s;" % ver, 1)
+            add("%s-okpragma-%s-%s" % (btag, ver, user[0]), f2, argv, "supported-pragma", uncond=False)
+        for u in user[:1] + ["lib.circom"]:
+            f2 = dict(files)
+            f2[u] = f2[u].replace("pragma circom 2.0.0;\n", "", 1)
+            add("%s-nopragma-%s" % (btag, u), f2, argv, "no-pragma", uncond=False)
         # 4. lexical / syntactic error at each token of each user file
         for u in user:
             toks = list(TOKEN.finditer(files[u]))
@@ -271,6 +281,10 @@ MATRIX_CLASS_ALIAS = {"lexical-error": "SyntaxError"}
 # classes the matrix can only inject conditionally (the inserted statement / the copied definition may leave a valid
 # program): their table check is made on the injections that apply (the in-process pipeline reports an error-level problem)
 CONDITIONAL_ONLY = ("InvalidTupleOrAnonymous", "DuplicateDefinition")
+
+
+# injected for the correspondence of the version check only: no failure class of the property text
+NOT_FAILURES = ("supported-pragma", "no-pragma")
 
 
 def coq_class(cls):
@@ -537,7 +551,7 @@ def run(ctx, proofs):
                                   "Spec.NoSilentSpec.failure_class" % never,
                                   {"broken": "lib/props/C02.py injections() vs Spec.NoSilentSpec.class_table", "table": table_stats},
                                   no_input=True)
-                weak = [c for c, st in per_class.items() if st["applicable"] == 0 and c not in ("corpus",)]
+                weak = [c for c, st in per_class.items() if st["applicable"] == 0 and c not in ("corpus",) + NOT_FAILURES]
                 if weak:
                     ctx.violation("injection matrix degenerate: no applicable injection for classes %s" % weak,
                                   {"broken": "lib/props/C02.py injections()", "classes": per_class}, no_input=True)
